@@ -22,7 +22,7 @@ import (
 // ---------------------------------------------------------------------------------------------
 // C19, wire leg: the locators a real node puts on the wire.
 
-const ruleC19wire = "a header repository is filled with a straight chain of a drawn length (0..60, or one of 100, 600, 2556..2600, 3000 so that the back-off reaches the requested maximum of 10) with 0..3 side branches forking inside it and, in half of the cases, synthetic split tables installed on that chain (verif hook VerifSetSplits; the peer then verifies with the chain's own header at the required split); a real BitcoinNode (full or verify-only) is run over loopback TCP against a scripted peer that completes handshake and verification; every getheaders the peer receives is decoded - the verification request, the initial request sent on acceptance (maximum 10), one sent by RequestHeaders (maximum 3), and a second RequestHeaders after the peer extended our chain by 1..3 headers; in half of the cases everything the scripted peer writes is cut into pieces of 1..100 bytes over the first 600 bytes of each send (TCP segmentation at arbitrary offsets); oracle: the stop hash is zero; the verification locator equals GetVerifyOnlyLocatorHashes and the others equal GetLocatorHashes(max) of the repository at that moment, hash for hash in order; no hash twice; the first best-chain hash is the parent of our tip (genesis at height 0); and a simulated same-chain peer answering per protocol (first locator hash in wire order that is on its chain, reply from the next height) starts its reply exactly at our tip (at height 1 when we only have genesis); non-trivial = repository locator longer than the requested maximum (side-branch base or split fork point added) or chain of >= 17 headers; distinct = (node kind, chain length, side branches, splits flag, extension)"
+const ruleC19wire = "a header repository is filled with a straight chain of a drawn length (0..60, or one of 100, 600, 2556..2600, 3000 so that the back-off reaches the requested maximum of 10) with 0..3 side branches forking inside it and, in half of the cases, synthetic split tables installed on that chain (verif hook VerifSetSplits; the peer then verifies with the chain's own header at the required split); a real BitcoinNode (full or verify-only) is run over loopback TCP against a scripted peer that completes handshake and verification; every getheaders the peer receives is decoded - the verification request, the initial request sent on acceptance (maximum 10), one sent by RequestHeaders (maximum 3), and a second RequestHeaders after the peer extended our chain by 1..3 headers; in half of the cases everything the scripted peer writes is cut into pieces of 1..100 bytes over the first 160 bytes of each send (TCP segmentation at arbitrary offsets); oracle: the stop hash is zero; the verification locator equals GetVerifyOnlyLocatorHashes and the others equal GetLocatorHashes(max) of the repository at that moment, hash for hash in order; no hash twice; the first best-chain hash is the parent of our tip (genesis at height 0); and a simulated same-chain peer answering per protocol (first locator hash in wire order that is on its chain, reply from the next height) starts its reply exactly at our tip (at height 1 when we only have genesis); non-trivial = repository locator longer than the requested maximum (side-branch base or split fork point added) or chain of >= 17 headers; distinct = (node kind, chain length, side branches, splits flag, extension)"
 
 type wireLocator struct {
 	hashes []model.Hash
